@@ -289,3 +289,18 @@ def ligands(sx, B):
             if mj == 2:
                 continue
             sx.claim({k: v for k, v in mm.nodes[n].items()} == nodes_before[mj][n], "other residues keep their attributes")
+
+
+
+@condition("C18.spec_strings", engine="crosshair",
+           anchors=["polyply.src.annotate_ligands:parse_residue_spec"],
+           must_cover=["spec_names_only", "spec_molecule_only"],
+           cfg={"module": "chx/c18_spec.py", "functions": {"quick": ["spec_names_only", "spec_molecule_only"],
+                                                          "thorough": ["spec_names_only", "spec_molecule_only", "spec_with_ids"]},
+                "timeout": {"quick": 90, "thorough": 300}},
+           outside=["names longer than 3 characters (1 when both ids are given)", "ids given as anything but digit strings from a small set"],
+           bounds={"quick": dict(name_len=3), "thorough": dict(name_len=3, name_len_with_ids=1)})
+def spec_strings(sx, B):
+    """Engine B (CrossHair, z3 string theory): real parse_residue_spec on specifications whose molecule and residue names are
+    arbitrary strings (any characters except '#' and '-', length <= 3): the parsed dictionary holds exactly the fields written."""
+    raise NotImplementedError("run by pverif.chx")
